@@ -181,6 +181,10 @@ structure Sys (α : Type) where
   behav : Option Nat := none
   /-- `ThrottlingChecker.lastPassedTime` (ns) -/
   last : Int := 0
+  /-- the rule's own statistic when its `StatIntervalInMs` cannot reuse the resource's global statistic
+      (`standaloneStatistic` with `reuseResourceStat = false`): a `BucketLeapArray(sc, Iv)` created at load time, read through
+      the rule's view `(sc, Iv)` and fed by `StandaloneStatSlot.OnEntryPassed` (passes only) -/
+  own : Option (Arr Bucket) := none
 
 def nodeN : Nat := 20    -- GlobalStatisticSampleCountTotal
 def nodeL : Nat := 500   -- GlobalStatisticIntervalMsTotal / GlobalStatisticSampleCountTotal
@@ -256,6 +260,60 @@ def loadRule {α} [Carrier α] (s : Sys α) (now : Nat) (r : RuleP α) (q : Opti
     | some b => if b.same r && s.behav == q then s else fresh
     | none => fresh
 
+/-! ## rules with a statistic of their own -/
+
+def RuleP.iv {α} : RuleP α → Nat
+  | .wu _ _ _ iv => iv
+  | .ma _ iv => iv
+
+/-- `Rule.needStatistic`: WarmUp, or Reject -/
+def RuleP.needsStat {α} (r : RuleP α) (q : Option Nat) : Bool :=
+  match r with
+  | .wu .. => true
+  | .ma .. => q.isNone
+
+/-- `loadRule` plus the rule's statistic (`generateStatFor` / the reuse of the old controller's `boundStat`): `sa` says that
+    `StatIntervalInMs` cannot reuse the resource's global statistic (`viewOf`). A kept controller keeps its statistic; a rebuilt one
+    takes over the old statistic when the old rule `isStatReusable` (same `StatIntervalInMs`, both need a statistic), otherwise a
+    fresh `BucketLeapArray(sc, Iv)` is created at load time (or none, when the global statistic is reused / no statistic is needed) -/
+def loadRuleG {α} [Carrier α] (s : Sys α) (now : Nat) (r : RuleP α) (q : Option Nat) (valid : Bool) (sc Iv : Nat) (sa : Bool) : Sys α :=
+  let s' := loadRule s now r q valid sc Iv
+  if !valid then { s' with own := none } else
+  let kept := match s.bound with | some b => b.same r && s.behav == q | none => false
+  if kept then s' else
+  let reuse := match s.bound with
+    | some b => b.iv == r.iv && b.needsStat s.behav && r.needsStat q
+    | none => false
+  if reuse then s'
+  else { s' with own := if sa && r.needsStat q then some (LA.mk sc (Iv / sc) now) else none }
+
+/-- `req` for a rule that reads (and, through `StandaloneStatSlot`, feeds) its own statistic `o`; the resource node is updated as always -/
+def reqOwn {α} [Carrier α] (s : Sys α) (o : Arr Bucket) (now batch : Nat) : Sys α × Bool :=
+  let s := s.touch now
+  match s.arr with
+  | none => (s, true)
+  | some a =>
+    let (tk, thr) := threshold s o now
+    let blocked := match thr, s.rule with
+      | some t, some (_, _, Iv) => rejects t (vSum o Iv now .pass) batch
+      | _, _ => false
+    let a' := (addAt a now (if blocked then evBucket .block batch else evBucket .pass batch)).1
+    let o' := if blocked then o else (addAt o now (evBucket .pass batch)).1
+    ({ s with arr := some a', tok := tk, own := some o' }, !blocked)
+
+/-- what the driver executes: `req` on the resource's statistic, `reqOwn` on the rule's own one -/
+def reqG {α} [Carrier α] (s : Sys α) (now batch : Nat) : Sys α × Bool :=
+  match s.own with
+  | none => req s now batch
+  | some o => reqOwn s o now batch
+
+def reqsG {α} [Carrier α] (s : Sys α) (now batch : Nat) : Nat → Sys α × Nat
+  | 0 => (s, 0)
+  | n + 1 =>
+    let (s1, ok) := reqG s now batch
+    let (s2, k) := reqsG s1 now batch n
+    (s2, k + (if ok then 1 else 0))
+
 /-- what `ThrottlingChecker.DoCheck` decides from the calculated threshold before touching `lastPassedTime`:
     `threshold <= 0` or `batch > threshold` ⇒ blocked; else `intervalNs = ⌈batch / threshold · statIntervalNs⌉`.
     (A NaN threshold — `warmup-nan` — makes the interval conversion implementation-defined; never generated, classed as blocked.) -/
@@ -276,13 +334,16 @@ def probe {α} [Carrier α] (s : Sys α) (nowNs batch : Nat) : Sys α × Throttl
   let s := s.touch now
   match s.arr, s.rule, s.behav with
   | some a, some (_, _, Iv), some maxQ =>
-    let (tk, thr) := threshold s a now
+    let (tk, thr) := threshold s (s.own.getD a) now
     let cls := throttleClass (thr.getD none) batch (Iv * 1000000)
     let (last', res) := Throttle.doCheck ((maxQ : Int) * 1000000) s.last nowNs cls
     let after : Nat := match res with | .wait w => nowNs + w.toNat | _ => nowNs
     let ev := match res with | .block => evBucket .block batch | _ => evBucket .pass batch
     let a' := (addAt a (after / 1000000) ev).1
-    ({ s with arr := some a', tok := tk, last := last' }, res, after)
+    let own' := match res with
+      | .block => s.own
+      | _ => s.own.map fun o => (addAt o (after / 1000000) (evBucket .pass batch)).1
+    ({ s with arr := some a', tok := tk, last := last', own := own' }, res, after)
   | _, _, _ => (s, .pass, nowNs)
 
 /-! ## the regions of the recorded findings, as decidable predicates on the calculator's fields -/
